@@ -94,6 +94,9 @@ fn judge(data: &[u8], t: &mut Tally) -> Option<(String, String)> {
 }
 
 fn case_json(data: &[u8], desc: &str) -> Value {
+    if data.len() > (1 << 16) && lzfam::build_recipe_checked(desc).as_deref() == Some(data) {
+        return json!({"recipe": desc, "len": data.len()});
+    }
     json!({"desc": desc, "len": data.len(), "hex": util::hex(&data[..data.len().min(1 << 16)]), "truncated": data.len() > (1 << 16)})
 }
 
@@ -183,11 +186,9 @@ fn explore(ctx: &Ctx) -> Outcome {
     let mut rest: Vec<LzInput> = lzfam::structure_grid(ctx.tier);
     let grid_n = rest.len();
     rest.extend(lzfam::header_boundaries(ctx.tier).into_iter().filter(|i| !unsafe_inputs.contains(&i.data)));
-    // single repeats longer than the largest LZ11 length (65 808): the compressor must split them
-    for n in [65_808usize + 2, 65_808 + 3, 70_000, 140_000] {
-        rest.push(LzInput { family: "header", desc: format!("zeros n={}", n), data: vec![0u8; n] });
-        rest.push(LzInput { family: "header", desc: format!("period-4 after a prefix n={}", n), data: (0..n).map(|i| if i < 40 { i as u8 } else { (i % 4) as u8 + 200 }).collect() });
-    }
+    // large inputs, each described by a recipe (replayable): repeats longer than the largest LZ11
+    // length (65 808), long literal runs, noise followed by long repeats, sizes around 2^20..2^24
+    rest.extend(lzfam::big_inputs(ctx.tier, true));
     let t = rest
         .par_iter()
         .fold(Tally::new, |mut t, inp| {
@@ -247,13 +248,18 @@ fn explore(ctx: &Ctx) -> Outcome {
         o.machinery(m);
     }
     o.assumptions = vec![
-        "inputs up to 64 KiB (16 MiB-1 at the thorough tier); the three wrapper bytes after 0x13 are not interpreted".into(),
+        "inputs up to 16 MiB-8 KiB (16 MiB-1 at the thorough tier); the three wrapper bytes after 0x13 are not interpreted".into(),
         "for the empty input both Ok (then it must be a valid stream) and Err are accepted".into(),
     ];
     o
 }
 
 fn replay(ctx: &Ctx, case: &Value) -> Vec<Violation> {
+    if let Some(r) = case["recipe"].as_str() {
+        let data = lzfam::build_recipe(r);
+        let mut t = Tally::new();
+        return judge(&data, &mut t).map(|(sig, summary)| vec![Violation { sig, summary, case: case.clone() }]).unwrap_or_default();
+    }
     if case["truncated"].as_bool().unwrap_or(false) {
         return vec![];
     }
